@@ -81,17 +81,42 @@ func (d P2Data) Process() (artifact.Artifact, error) {
 	return basics.Text{Data: d.S.Value()}, nil
 }
 
+// P3Data passes a slice-typed parameter through: the artifact keeps the slice it was given and
+// renders it only when it is written out — which the server (and this harness) does after the call
+// returned, outside the lock.
+type P3Data struct {
+	C nodes.NodeOutput[[]int]
+}
+
+type sliceArtifact struct{ data []int }
+
+func (s sliceArtifact) Write(w io.Writer) error {
+	_, err := fmt.Fprintf(w, "c%v", s.data)
+	return err
+}
+func (sliceArtifact) Mime() string { return "text/plain" }
+
+func (d P3Data) Process() (artifact.Artifact, error) {
+	return sliceArtifact{d.C.Value()}, nil
+}
+
+var cValues = [3][]int{{1, 2, 3}, {7, 8, 9}, {4, 5, 6}}
+
+func render3(c int) string { return fmt.Sprintf("c%v", cValues[c]) }
+
 func render1(a, b int) string { return fmt.Sprintf("a%d b%d|a%d|b%d", a, b, a, b) }
 func render2(a, b int) string { return fmt.Sprintf("a%d b%d", a, b) }
 
 type world struct {
-	inst     *graph.Instance
-	aID, bID string
+	inst          *graph.Instance
+	aID, bID, cID string
 	// server mode: the real HTTP endpoints (nil when the clients call the Instance directly)
 	paramH, prodH http.Handler
 }
 
-func graphParts() (a, b *parameter.Value[int], p1, p2 nodes.NodeOutput[artifact.Artifact]) {
+func graphParts() (a, b *parameter.Value[int], cp *parameter.Value[[]int], p1, p2, p3 nodes.NodeOutput[artifact.Artifact]) {
+	cp = &parameter.Value[[]int]{Name: "c", DefaultValue: append([]int{}, cValues[0]...)}
+	p3 = (&nodes.Struct[artifact.Artifact, P3Data]{Data: P3Data{C: cp.Out()}}).Out()
 	a = &parameter.Value[int]{Name: "a", DefaultValue: 0}
 	b = &parameter.Value[int]{Name: "b", DefaultValue: 0}
 	s1 := &nodes.Struct[string, S1Data]{Data: S1Data{A: a.Out(), B: b.Out()}}
@@ -104,20 +129,21 @@ func graphParts() (a, b *parameter.Value[int], p1, p2 nodes.NodeOutput[artifact.
 // build constructs a fresh system. via: "instance" (clients call graph.Instance), "server" (clients
 // go through the real parameter-value and producer HTTP endpoints, autosave off) or "server+autosave".
 func build(via string) world {
-	a, b, p1, p2 := graphParts()
+	a, b, cp, p1, p2, p3 := graphParts()
 	if via == "" || via == "instance" {
 		inst := graph.New(&refutil.TypeFactory{})
 		inst.AddProducer("p1", p1)
 		inst.AddProducer("p2", p2)
-		return world{inst: inst, aID: inst.NodeId(a), bID: inst.NodeId(b)}
+		inst.AddProducer("p3", p3)
+		return world{inst: inst, aID: inst.NodeId(a), bID: inst.NodeId(b), cID: inst.NodeId(cp)}
 	}
-	app := &generator.App{Name: "verif", Files: map[string]nodes.NodeOutput[artifact.Artifact]{"p1": p1, "p2": p2}}
+	app := &generator.App{Name: "verif", Files: map[string]nodes.NodeOutput[artifact.Artifact]{"p1": p1, "p2": p2, "p3": p3}}
 	savePath := ""
 	if via == "server+autosave" {
 		savePath = autosavePath()
 	}
 	inst, ph, prh := generator.VerifEndpoints(app, savePath)
-	return world{inst: inst, aID: inst.NodeId(a), bID: inst.NodeId(b), paramH: ph, prodH: prh}
+	return world{inst: inst, aID: inst.NodeId(a), bID: inst.NodeId(b), cID: inst.NodeId(cp), paramH: ph, prodH: prh}
 }
 
 var autosaveFile string
@@ -144,9 +170,12 @@ func autosavePath() string {
 // Op codes: "Ua1" update a:=1 … "Ra" ParameterData(a), "A1" Artifact(p1), "A2" Artifact(p2).
 var alphabet = []string{"Ua1", "Ub1", "Ra", "A1", "A2", "Ub2", "Ua2", "Rb"}
 
+// the slice-typed parameter c and its pass-through producer p3
+var sliceAlphabet = []string{"Uc1", "A3", "Uc2", "Rc"}
+
 type opIn struct{ code string }
 
-type mstate struct{ a, b int }
+type mstate struct{ a, b, c int }
 
 var model = porcupine.Model{
 	Init: func() interface{} { return mstate{} },
@@ -156,23 +185,33 @@ var model = porcupine.Model{
 		switch code[0] {
 		case 'U':
 			v := int(code[2] - '0')
-			if code[1] == 'a' {
+			switch code[1] {
+			case 'a':
 				s.a = v
-			} else {
+			case 'b':
 				s.b = v
+			case 'c':
+				s.c = v
 			}
 			return output.(string) == "ok", s
 		case 'R':
-			want := s.a
-			if code[1] == 'b' {
-				want = s.b
+			want := fmt.Sprint(s.a)
+			switch code[1] {
+			case 'b':
+				want = fmt.Sprint(s.b)
+			case 'c':
+				b, _ := json.Marshal(cValues[s.c])
+				want = string(b)
 			}
-			return output.(string) == fmt.Sprint(want), s
+			return output.(string) == want, s
 		case 'A':
-			if code[1] == '1' {
+			switch code[1] {
+			case '1':
 				return output.(string) == render1(s.a, s.b), s
+			case '2':
+				return output.(string) == render2(s.a, s.b), s
 			}
-			return output.(string) == render2(s.a, s.b), s
+			return output.(string) == render3(s.c), s
 		}
 		return false, s
 	},
@@ -187,27 +226,17 @@ func perform(w world, code string) string {
 	}
 	switch code[0] {
 	case 'U':
-		id := w.aID
-		if code[1] == 'b' {
-			id = w.bID
-		}
-		if _, err := w.inst.UpdateParameter(id, []byte(code[2:])); err != nil {
+		if _, err := w.inst.UpdateParameter(w.paramID(code), message(code)); err != nil {
 			return "error: " + err.Error()
 		}
 		return "ok"
 	case 'R':
-		id := w.aID
-		if code[1] == 'b' {
-			id = w.bID
-		}
-		return string(w.inst.ParameterData(id))
+		return string(w.inst.ParameterData(w.paramID(code)))
 	case 'A':
-		name := "p1"
-		if code[1] == '2' {
-			name = "p2"
-		}
-		art := w.inst.Artifact(name)
-		// the artifact is written out after the call returned (as the server does)
+		art := w.inst.Artifact("p" + code[1:2])
+		// the artifact is written out after the call returned, outside the lock (as the server does):
+		// another client's complete update may run in between
+		vsched.Yield()
 		buf := &bytes.Buffer{}
 		if err := art.Write(buf); err != nil {
 			return "error: " + err.Error()
@@ -219,15 +248,35 @@ func perform(w world, code string) string {
 
 // performHTTP issues the operation as the request the editor / a client would send, served
 // synchronously by the real endpoint in the calling (controlled) thread.
+func (w world) paramID(code string) string {
+	switch code[1] {
+	case 'b':
+		return w.bID
+	case 'c':
+		return w.cID
+	}
+	return w.aID
+}
+
+// message is the JSON body of an update: the digit itself for the int parameters, one of the
+// slices for the slice-typed one.
+func message(code string) []byte {
+	if code[1] == 'c' {
+		b, _ := json.Marshal(cValues[code[2]-'0'])
+		return b
+	}
+	return []byte(code[2:])
+}
+
 func performHTTP(w world, code string) string {
 	rec := httptest.NewRecorder()
-	id := w.aID
-	if len(code) > 1 && code[1] == 'b' {
-		id = w.bID
+	id := ""
+	if code[0] != 'A' {
+		id = w.paramID(code)
 	}
 	switch code[0] {
 	case 'U':
-		w.paramH.ServeHTTP(rec, httptest.NewRequest(http.MethodPost, "/parameter/value/"+id, strings.NewReader(code[2:])))
+		w.paramH.ServeHTTP(rec, httptest.NewRequest(http.MethodPost, "/parameter/value/"+id, bytes.NewReader(message(code))))
 		if rec.Code != http.StatusOK {
 			return fmt.Sprintf("http %d: %s", rec.Code, rec.Body.String())
 		}
@@ -236,11 +285,7 @@ func performHTTP(w world, code string) string {
 		w.paramH.ServeHTTP(rec, httptest.NewRequest(http.MethodGet, "/parameter/value/"+id, nil))
 		return rec.Body.String()
 	case 'A':
-		name := "p1"
-		if code[1] == '2' {
-			name = "p2"
-		}
-		w.prodH.ServeHTTP(rec, httptest.NewRequest(http.MethodGet, "/producer/value/"+name, nil))
+		w.prodH.ServeHTTP(rec, httptest.NewRequest(http.MethodGet, "/producer/value/p"+code[1:2], nil))
 		if rec.Code != http.StatusOK {
 			return fmt.Sprintf("http %d: %s", rec.Code, rec.Body.String())
 		}
@@ -425,12 +470,16 @@ func run(c *core.Ctx) {
 	fams := []family{
 		{"instance: 2 clients x <=2 ops, 8-op alphabet", "instance", alphabet, 2, 2},
 		{"instance: 3 clients x 1 op, 8-op alphabet", "instance", alphabet, 3, 1},
+		{"instance: slice-typed parameter, 2 clients x <=2 ops", "instance", sliceAlphabet, 2, 2},
 		{"server: 2 clients x <=2 ops, 5-op alphabet", "server", alphabet[:5], 2, 2},
+		{"server: slice-typed parameter, 2 clients x <=2 ops", "server", sliceAlphabet, 2, 2},
 		{"server+autosave: 2 clients x <=2 ops, 4-op alphabet", "server+autosave", alphabet[:4], 2, 2},
 	}
 	if c.Thorough() {
 		fams = append(fams,
 			family{"instance: 3 clients x <=2 ops, 5-op alphabet", "instance", alphabet[:5], 3, 2},
+			family{"instance: slice-typed parameter, 3 clients x <=2 ops", "instance", sliceAlphabet[:3], 3, 2},
+			family{"instance: slice + int parameters, 2 clients x <=2 ops", "instance", []string{"Uc1", "A3", "Ua1", "A1", "Uc2"}, 2, 2},
 			family{"instance: 2 clients x <=3 ops, 5-op alphabet", "instance", alphabet[:5], 2, 3},
 			family{"server: 3 clients x 1 op, 8-op alphabet", "server", alphabet, 3, 1},
 			family{"server+autosave: 3 clients x 1 op, 8-op alphabet", "server+autosave", alphabet, 3, 1},
